@@ -252,7 +252,7 @@ func (t *loopTr) needsFlow(n ast.Node, returns bool) bool {
 			if sig, _ := t.sigOf(x); sig != nil && sig.flow {
 				found = true
 			}
-			if t.isPanicCall(x) {
+			if t.isPanicCall(x) || t.bigPanics(x) {
 				found = true
 			}
 			if id, ok := unparen(x.Fun).(*ast.Ident); ok && t.flowFn && len(x.Args) >= 2 {
